@@ -355,16 +355,31 @@ class Monitor:
 # temporary area
 # --------------------------------------------------------------------------
 
-class Area:
-    """<work>/c13_xxx/ = T ; T/R = served root ; T/D = download destination ;
-    T/secret, T/sdir/inner = decoys ; T/cwd = working directory."""
+ROOTNAME = 'RR'         # real name of the served root (model name: "R")
+# The names AROUND the root / destination are a dimension of the world: next
+# to them live siblings whose names share a prefix with theirs (the model's
+# outside node "Rx" / "Dx" stands for this class: every case is materialised
+# towards each member) and an unrelated one ("U"); each holds a decoy.
+ROOT_SIBLINGS = ['RRx', 'RR-old', 'R']      # R+'x', R+'-old', R[:-1]
+DEST_SIBLINGS = ['Dx', 'D-old']
+UNRELATED = 'U'
+SIBLINGS = ROOT_SIBLINGS + DEST_SIBLINGS + [UNRELATED]
+# real top-level name -> name in model locations (the sibling "R" must not be
+# confused with the model's name "R" for the root)
+REAL2MODEL = {ROOTNAME: 'R', 'R': 'R~'}
 
-    SKELETON = ('R', 'D', 'secret', 'sdir', 'cwd', 'src')
+
+class Area:
+    """<work>/c13_xxx/ = T ; T/RR = served root (model: T/R) ; T/D = download
+    destination ; T/secret, T/sdir/inner and T/<sibling>/decoy = decoys ;
+    T/cwd = working directory."""
+
+    SKELETON = (ROOTNAME, 'D', 'secret', 'sdir', 'cwd', 'src')
 
     def __init__(self, prefix='c13_'):
         os.makedirs(tlc.WORK, exist_ok=True)
         self.top = _o_realpath(tempfile.mkdtemp(prefix=prefix, dir=tlc.WORK))
-        self.root = os.path.join(self.top, 'R')
+        self.root = os.path.join(self.top, ROOTNAME)
         self.dest = os.path.join(self.top, 'D')
         self.cwd = os.path.join(self.top, 'cwd')
         self.oldcwd = os.getcwd()
@@ -400,14 +415,20 @@ class Area:
         """Empty the area and rebuild the skeleton (+ an initial tree below
         the root: {('a','b'): 'dir'|'file'}).  Intact parts of the skeleton
         are kept (file-system calls are the expensive part of a case)."""
-        keep_root = self._isdir(self.root) and self._intact('R/.keep', 'keep')
+        keep_root = self._isdir(self.root) and \
+            self._intact(ROOTNAME + '/.keep', 'keep')
+        keep_sib = {n for n in SIBLINGS
+                    if self._isdir(os.path.join(self.top, n)) and
+                    self._intact(n + '/decoy', 'DECOY-' + n) and
+                    _o_listdir(os.path.join(self.top, n)) == ['decoy']}
         keep_sdir = self._isdir(os.path.join(self.top, 'sdir')) and \
             self._intact('sdir/inner', 'INNER') and \
             _o_listdir(os.path.join(self.top, 'sdir')) == ['inner']
         keep_secret = self._intact('secret', 'SECRET')
         for name in _o_listdir(self.top):
             p = os.path.join(self.top, name)
-            if name == 'cwd' or (name == 'R' and keep_root) or \
+            if name == 'cwd' or (name == ROOTNAME and keep_root) or \
+                    name in keep_sib or \
                     (name == 'sdir' and keep_sdir) or \
                     (name == 'secret' and keep_secret):
                 continue
@@ -427,6 +448,11 @@ class Area:
             os.mkdir(os.path.join(self.top, 'sdir'), 0o755)
             with open(os.path.join(self.top, 'sdir', 'inner'), 'w') as f:
                 f.write('INNER')
+        for n in SIBLINGS:
+            if n not in keep_sib:
+                os.mkdir(os.path.join(self.top, n), 0o755)
+                with open(os.path.join(self.top, n, 'decoy'), 'w') as f:
+                    f.write('DECOY-' + n)
         if not os.path.isdir(self.cwd):
             os.makedirs(self.cwd)
         for loc in sorted(tree or {}, key=len):
@@ -444,7 +470,8 @@ class Area:
 
     def decoy_attrs(self):
         out = {}
-        for rel in ('secret', 'sdir', 'sdir/inner'):
+        for rel in ['secret', 'sdir', 'sdir/inner'] + SIBLINGS + \
+                [n + '/decoy' for n in SIBLINGS]:
             try:
                 st = _o_lstat(os.path.join(self.top, rel))
                 out[rel] = (st.st_mode, st.st_mtime_ns, st.st_size)
@@ -463,11 +490,27 @@ class Area:
         if not under(self.top, loc):
             return None
         rel = loc[len(self.top):].strip('/')
-        return ('T',) + tuple(rel.split('/') if rel else ())
+        t = tuple(rel.split('/') if rel else ())
+        if t:
+            t = (REAL2MODEL.get(t[0], t[0]),) + t[1:]
+        return ('T',) + t
+
+    def from_model(self, loc):
+        """model location ('T','R','a') -> real path"""
+        t = tuple(loc[1:])
+        if t[:1] == ('R',):
+            t = (ROOTNAME,) + t[1:]
+        return self.top + ''.join('/' + c for c in t)
 
     def model_target(self, target):
+        # any member of the prefix-sharing sibling class is the model's "Rx"
+        target = '/'.join('Rx' if c in ROOT_SIBLINGS else c
+                          for c in target.split('/'))
         if target == self.top or target.startswith(self.top + '/'):
-            return '/T' + target[len(self.top):]
+            rest = target[len(self.top):]
+            if rest == '/' + ROOTNAME or rest.startswith('/' + ROOTNAME + '/'):
+                rest = '/R' + rest[len(ROOTNAME) + 1:]
+            return '/T' + rest
         return target
 
     def snapshot(self, skip=()):
@@ -491,11 +534,12 @@ class Area:
                         data = f.read(64)
                     out[ml] = ('file', data, st.st_ino)
         for name in sorted(_o_listdir(self.top)):
+            mname = REAL2MODEL.get(name, name)
             if name in skip or name == 'cwd':
                 continue
             p = os.path.join(self.top, name)
             st = _o_lstat(p)
-            ml = ('T', name)
+            ml = ('T', mname)
             if statmod.S_ISLNK(st.st_mode):
                 out[ml] = ('link', self.model_target(_o_readlink(p)),
                            st.st_ino)
@@ -515,6 +559,10 @@ class Area:
 
 DECOYS = {('T', 'secret'): ('file', b'SECRET'), ('T', 'sdir'): ('dir', ''),
           ('T', 'sdir', 'inner'): ('file', b'INNER')}
+for _n in SIBLINGS:
+    DECOYS[('T', REAL2MODEL.get(_n, _n))] = ('dir', '')
+    DECOYS[('T', REAL2MODEL.get(_n, _n), 'decoy')] = \
+        ('file', ('DECOY-' + _n).encode())
 
 
 def outside_changes(snap, inside):
@@ -945,7 +993,7 @@ class DownloadWorld:
         if isinstance(exc, RuntimeError) or self.conn.is_closed():
             self._reconnect()
         with mon.quiet():
-            snap = self.area.snapshot(skip=('R',))
+            snap = self.area.snapshot(skip=(ROOTNAME,))
             after = self.area.decoy_attrs()
         outside = outside_changes(snap, ('T', 'D'))
         outside += [(('T', k), 'attributes changed') for k in before
@@ -1064,7 +1112,7 @@ def model_tree(fs):
     for k, nd in fs.items():
         loc = tuple(json.loads(k)) if isinstance(k, str) and k.startswith('[') \
             else tuple(k)
-        if loc in ((), ('T',), ('T', 'R')):
+        if loc in ((), ('T',), ('T', 'R'), ('T', 'Rx'), ('T', 'U')):
             continue
         out[loc] = (nd['k'], '/'.join(nd['t']) if nd['k'] == 'link' else '',
                     nd['ino'])
@@ -1108,7 +1156,7 @@ class LinkBook:
         self.inst = {}
 
     def _outward(self, loc):
-        real = self.world.area.top + '/' + '/'.join(loc[1:])
+        real = self.world.area.from_model(loc)
         with self.world.mon.quiet():
             res, _err = kwalk(real, True)
         return not under(self.world.area.root, res)
@@ -1148,7 +1196,9 @@ class LinkBook:
                     plain = (q in (norm, norm[1:]) and
                              ('T', 'R') + tuple(norm[1:].split('/')) == loc)
                     creation = ('absolute' if want.startswith('/') else
-                                'relative-kept' if tgt == want else
+                                'relative-kept'
+                                if tgt == self.world.area.model_target(want)
+                                else
                                 'relative-rewritten')
                 self.first[ino] = dict(loc=loc, outward=out, target=tgt,
                                        plain=plain, creation=creation)
